@@ -7,6 +7,7 @@ import (
 
 	regexp2 "github.com/dlclark/regexp2/v2"
 	"github.com/dlclark/regexp2/v2/compat"
+	"github.com/dlclark/regexp2/v2/syntax"
 	"github.com/dlclark/regexp2/v2/vsim"
 )
 
@@ -58,6 +59,7 @@ var oracleCache = map[string]oracleVal{}
 var oracleHits, oracleMiss int
 
 func resetGlobals(periodNs int64) {
+	syntax.VerifResetGlobals() // first: the other packages' initialisers may refer to its objects
 	regexp2.VerifResetGlobals()
 	compat.VerifResetGlobals()
 	if periodNs > 0 {
